@@ -46,6 +46,10 @@ def net_case(torch, seed, mode):
     spec = ga.gen(rng, dim=rng.choice([1, 1, 2]), conv_head=True, k1d=list(range(1, 13)))
     if rng.random() < 0.3:
         spec = ga.add_output_head(spec, rng)
+    unsupported = rng.random() < 0.12
+    if unsupported:
+        spec = ga.with_unsupported_activation(spec, rng)
+        unsupported = 'unsupported-activation' in spec.get('productions', [])
     o = {'seed': seed, 'mode': mode, 'arch': ga.describe(spec) + ' out=%s' % spec['out'], 'spec': spec, 'skip': None, 'layers': {}, 'fails': []}
     # topologies that crashed before the C09 repairs (now frozen maskers): kept in the stream, counted
     o['topology'] = 'dw-after-cat' if ga.has_dw_after_cat(spec) else 'add-of-cat' if ga.has_add_of_cat(spec) else 'plain'
@@ -53,11 +57,25 @@ def net_case(torch, seed, mode):
         m = ga.build(spec, seed=seed)
         xs = ga.example_input(spec, torch, seed)
         y0 = m.eval()(*xs)
-        p = PIT(m, input_shape=tuple(spec['input_shape']))
+        try:
+            p = PIT(m, input_shape=tuple(spec['input_shape']))
+        except ValueError as ex:
+            if unsupported and 'Unsupported node' in str(ex):
+                o['skip'] = 'refused:unsupported-activation'     # the library refuses the model: nothing can be searched away
+                return o
+            raise
         p.eval()
         for nm, q in p.named_nas_parameters():
             if q.requires_grad:
                 _adv_fill(torch, rng, q, mode)
+        # values can also reach the mask tensor of a FROZEN features masker (it keeps its state_dict key: warm start from
+        # a checkpoint of a search in which that width was searchable): the width must stay full
+        if rng.random() < 0.5:
+            for nm, layer in p.seed.named_modules():
+                fm = getattr(layer, 'out_features_masker', None)
+                if isinstance(fm, PITFrozenFeaturesMasker):
+                    _adv_fill(torch, rng, fm.alpha, mode)
+            o['frozen_alpha_written'] = True
         summ = p.summary()
         for nm, layer in p.seed.named_modules():
             if isinstance(layer, (PITConv1d, PITConv2d, PITLinear)):
